@@ -139,7 +139,7 @@ Proof.
   unfold detect, det_langs. destruct (lookup (ext_of (f_name f)) extension_map) as [l|] eqn:E.
   - apply in_or_app. left. apply lookup_In in E. now apply (in_map snd) in E.
   - apply in_or_app. right.
-    destruct ((q_shebang_any_ext q || String.eqb (py_suffix (f_name f)) "") && f_nonempty f && f_readable f
+    destruct (((q_shebang_any_ext q && shebang_guard_any_ext) || String.eqb (py_suffix (f_name f)) "") && f_nonempty f && f_readable f
               && is_shebang (first_line (f_head f))); cbn [In]; auto.
 Qed.
 
@@ -157,7 +157,7 @@ Qed.
 (* a name whose (lower-cased) suffix is not in the map: unknown, unless the shebang fallback applies *)
 Theorem detect_unmapped q f :
   lookup (lower (py_suffix (f_name f))) extension_map = None ->
-  detect q f = if (q_shebang_any_ext q || String.eqb (py_suffix (f_name f)) "")
+  detect q f = if ((q_shebang_any_ext q && shebang_guard_any_ext) || String.eqb (py_suffix (f_name f)) "")
                   && f_nonempty f && f_readable f && is_shebang (first_line (f_head f))
                then shebang_lang else unknown_lang.
 Proof. intro H. unfold detect, ext_of. rewrite ext_lowered_true, H. reflexivity. Qed.
@@ -166,7 +166,7 @@ Proof. intro H. unfold detect, ext_of. rewrite ext_lowered_true, H. reflexivity.
 Lemma detect_spec q f :
   q_shebang_any_ext q = false -> spec_class f = lang_class (detect q f).
 Proof.
-  intro Hq. unfold detect, spec_class, ext_of. rewrite ext_lowered_true, Hq. cbn [orb].
+  intro Hq. unfold detect, spec_class, ext_of. rewrite ext_lowered_true, Hq. cbn [andb orb].
   set (e := lower (py_suffix (f_name f))).
   pose proof tables_agree_true as T. unfold tables_agree_b in T.
   apply andb_true_iff in T as [T T3]. apply andb_true_iff in T as [T T2].
@@ -231,24 +231,6 @@ Qed.
 
 (* ================================================================== 4. the main theorem *)
 
-Lemma own_ok_not_rejected cmd c r lang :
-  own_cfg_ok cmd c = true -> In r rule_table -> rule_owned cmd r = true -> rejected r c lang = false.
-Proof.
-  intros H Hr Ho. unfold own_cfg_ok in H. rewrite forallb_forall in H. specialize (H _ Hr).
-  rewrite Ho in H. cbn [negb orb] in H. rewrite forallb_forall in H.
-  unfold rejected. apply existsb_false_forall. intros s Hs. specialize (H _ Hs).
-  destruct (smem (s_key s) (r_keys r)); cbn [negb orb andb] in *; [|reflexivity].
-  destruct (s_rej s); [reflexivity|discriminate].
-Qed.
-
-Lemma no_abort q cmd c f lang :
-  q_foreign_reject_aborts q = false -> own_cfg_ok cmd c = true -> aborts q cmd c f lang = false.
-Proof.
-  intros Hq Ho. unfold aborts. apply existsb_false_forall. intros r Hr. rewrite Hq. cbn [orb].
-  destruct (rule_owned cmd r) eqn:E; [|now rewrite !andb_false_r].
-  rewrite (own_ok_not_rejected cmd c r lang Ho Hr E). now rewrite andb_false_r.
-Qed.
-
 Lemma clean_not_rejected c r lang : cfg_clean c = true -> rejected r c lang = false.
 Proof.
   intro H. unfold cfg_clean in H. rewrite forallb_forall in H. unfold rejected.
@@ -256,7 +238,7 @@ Proof.
   destruct (s_rej s); [|discriminate]. cbn [smem]. now rewrite andb_false_r.
 Qed.
 
-Lemma no_abort_clean q cmd c f lang : cfg_clean c = true -> aborts q cmd c f lang = false.
+Lemma no_abort_clean c f lang : cfg_clean c = true -> aborts c f lang = false.
 Proof.
   intro H. unfold aborts. apply existsb_false_forall. intros r _.
   rewrite (clean_not_rejected c r lang H). now rewrite andb_false_r.
@@ -287,7 +269,7 @@ Qed.
 Theorem run_cmd_spec q cmd c t f :
   q_shebang_any_ext q = false ->
   is_command cmd = true -> atab_good t = true ->
-  aborts q cmd c f (detect q f) = false ->
+  aborts c f (detect q f) = false ->
   run_cmd q cmd c t f = Ok (spec_out cmd t f).
 Proof.
   intros Hq1 Hcmd G Hab. unfold run_cmd. rewrite Hab.
@@ -297,13 +279,14 @@ Proof.
   apply (rule_level cmd atoms t r (detect q f) (lookup_In _ _ _ Ha) G Hr (detect_in_det_langs q f)).
 Qed.
 
-(* full strength: every quirk vector with both flags off, every command, file, oracle table, configuration *)
+(* full strength: every quirk vector with the flag off, every command, file, oracle table and every
+   configuration of the domain (all sections valid) *)
 Theorem run_cmd_exact q cmd c t f :
-  q_shebang_any_ext q = false -> q_foreign_reject_aborts q = false ->
-  is_command cmd = true -> atab_good t = true -> own_cfg_ok cmd c = true ->
+  q_shebang_any_ext q = false ->
+  is_command cmd = true -> atab_good t = true -> cfg_clean c = true ->
   run_cmd q cmd c t f = Ok (spec_out cmd t f).
 Proof.
-  intros Hq1 Hq2 Hcmd G Ho. apply run_cmd_spec; try assumption. now apply no_abort.
+  intros Hq1 Hcmd G Ho. apply run_cmd_spec; try assumption. now apply no_abort_clean.
 Qed.
 
 (* ================================================================== 5. corollaries named by the property *)
@@ -315,8 +298,8 @@ Theorem only_own_rules q cmd c t f vs v :
   exists r, In r rule_table /\ owns cmd (r_pkg r) (fst v) = true.
 Proof.
   intros Hq Hcmd G Hrun Hv.
-  assert (Hab : aborts q cmd c f (detect q f) = false).
-  { unfold run_cmd in Hrun. destruct (aborts q cmd c f (detect q f)); [discriminate|reflexivity]. }
+  assert (Hab : aborts c f (detect q f) = false).
+  { unfold run_cmd in Hrun. destruct (aborts c f (detect q f)); [discriminate|reflexivity]. }
   rewrite (run_cmd_spec q cmd c t f Hq Hcmd G Hab) in Hrun. injection Hrun as <-.
   unfold spec_out in Hv. apply in_flat_map in Hv as (r & Hr & Hv). exists r. split; [exact Hr|].
   destruct (allowed (r_pkg r) (spec_class f)); [|destruct Hv].
@@ -338,38 +321,34 @@ Theorem unrecognised_yields_nothing q cmd c t f vs :
   forall v, In v vs -> exists r, In r rule_table /\ lookup (r_pkg r) doc_langs = Some None.
 Proof.
   intros Hq Hcmd G Hcl Hrun v Hv.
-  assert (Hab : aborts q cmd c f (detect q f) = false).
-  { unfold run_cmd in Hrun. destruct (aborts q cmd c f (detect q f)); [discriminate|reflexivity]. }
+  assert (Hab : aborts c f (detect q f) = false).
+  { unfold run_cmd in Hrun. destruct (aborts c f (detect q f)); [discriminate|reflexivity]. }
   rewrite (run_cmd_spec q cmd c t f Hq Hcmd G Hab) in Hrun. injection Hrun as <-.
   unfold spec_out in Hv. rewrite Hcl in Hv. apply in_flat_map in Hv as (r & Hr & Hv). exists r. split; [exact Hr|].
   unfold allowed in Hv. destruct (lookup (r_pkg r) doc_langs) as [[ls|]|]; [destruct Hv|reflexivity|destruct Hv].
 Qed.
 
-(* other linters' sections are irrelevant: only the sections looked up by the command's own rules matter *)
-Definition own_part (cmd : string) (c : cfg) : cfg :=
-  filter (fun s => existsb (fun r => rule_owned cmd r && smem (s_key s) (r_keys r)) rule_table) c.
-
-Lemma rejected_own_part cmd c r lang :
-  In r rule_table -> rule_owned cmd r = true -> rejected r (own_part cmd c) lang = rejected r c lang.
-Proof.
-  intros Hr Ho. unfold rejected, own_part. rewrite existsb_filter. apply existsb_ext_in. intros s _.
-  destruct (smem (s_key s) (r_keys r)) eqn:E; [|now rewrite andb_false_r].
-  cbn [andb]. replace (existsb _ rule_table) with true; [reflexivity|].
-  symmetry. apply existsb_exists. exists r. split; [exact Hr|]. now rewrite Ho, E.
-Qed.
-
+(* configuring other linters never changes a command's result: within the domain the configuration does not
+   enter the result at all (a linter's own settings act through its analysis, i.e. through the oracle table) *)
 Theorem other_sections_irrelevant q cmd c1 c2 t f :
-  q_foreign_reject_aborts q = false -> own_part cmd c1 = own_part cmd c2 ->
+  cfg_clean c1 = true -> cfg_clean c2 = true ->
   run_cmd q cmd c1 t f = run_cmd q cmd c2 t f.
 Proof.
-  intros Hq He. unfold run_cmd.
-  replace (aborts q cmd c1 f (detect q f)) with (aborts q cmd c2 f (detect q f)); [reflexivity|].
-  unfold aborts. apply existsb_ext_in. intros r Hr. rewrite Hq. cbn [orb].
-  destruct (rule_owned cmd r) eqn:Ho; [|now rewrite !andb_false_r].
-  rewrite <- (rejected_own_part cmd c1 r _ Hr Ho), <- (rejected_own_part cmd c2 r _ Hr Ho), He. reflexivity.
+  intros H1 H2. unfold run_cmd. now rewrite (no_abort_clean c1 f _ H1), (no_abort_clean c2 f _ H2).
 Qed.
 
-(* ================================================================== 6. confinement of the two listed defects *)
+(* outside the domain (C05's territory): a rejected section that some rule loads on this file ends the run,
+   whichever command runs *)
+Theorem rejected_section_aborts q cmd c t f r :
+  In r rule_table -> loads r f (detect q f) = true -> rejected r c (detect q f) = true ->
+  run_cmd q cmd c t f = Aborted.
+Proof.
+  intros Hr Hl Hj. unfold run_cmd.
+  replace (aborts c f (detect q f)) with true; [reflexivity|].
+  symmetry. unfold aborts. apply existsb_exists. exists r. split; [exact Hr|]. now rewrite Hl, Hj.
+Qed.
+
+(* ================================================================== 6. confinement of the listed defect *)
 
 (* the shebang flag matters only for a non-extensionless, unmapped name whose first line is a python shebang *)
 Definition shebang_benign (f : file) : bool :=
@@ -377,24 +356,24 @@ Definition shebang_benign (f : file) : bool :=
   || match lookup (ext_of (f_name f)) extension_map with Some _ => true | None => false end
   || negb (f_nonempty f && f_readable f && is_shebang (first_line (f_head f))).
 
-Lemma detect_benign q f : shebang_benign f = true -> detect q f = detect (mk_quirks false (q_foreign_reject_aborts q)) f.
+Lemma detect_benign q f : shebang_benign f = true -> detect q f = detect ideal f.
 Proof.
-  unfold shebang_benign, detect. cbn [q_shebang_any_ext].
+  unfold shebang_benign, detect, ideal. cbn [q_shebang_any_ext].
   destruct (lookup (ext_of (f_name f)) extension_map); [reflexivity|].
   destruct (String.eqb (py_suffix (f_name f)) ""); [now rewrite !orb_true_r|].
-  cbn [orb]. intro H. rewrite orb_false_r.
-  destruct (q_shebang_any_ext q); [|reflexivity]. cbn [orb andb].
+  cbn [orb andb]. intro H. rewrite orb_false_r.
+  destruct (q_shebang_any_ext q && shebang_guard_any_ext); [|reflexivity]. cbn [orb andb].
   rewrite <- !andb_assoc. rewrite <- andb_assoc in H. apply negb_true_iff in H. now rewrite H.
 Qed.
 
 (* the faithful model (any quirk vector, in particular the actual one) meets the specification on every
-   input outside the two defect classes *)
+   input outside the defect class *)
 Theorem run_cmd_partial q cmd c t f :
   is_command cmd = true -> atab_good t = true -> cfg_clean c = true -> shebang_benign f = true ->
   run_cmd q cmd c t f = Ok (spec_out cmd t f).
 Proof.
   intros Hcmd G Hc Hb.
-  assert (E : run_cmd q cmd c t f = run_cmd (mk_quirks false (q_foreign_reject_aborts q)) cmd c t f).
-  { unfold run_cmd. rewrite (detect_benign q f Hb). rewrite !no_abort_clean by exact Hc. reflexivity. }
+  assert (E : run_cmd q cmd c t f = run_cmd ideal cmd c t f).
+  { unfold run_cmd. rewrite (detect_benign q f Hb). reflexivity. }
   rewrite E. apply run_cmd_spec; try assumption; [reflexivity|]. now apply no_abort_clean.
 Qed.
